@@ -5,10 +5,12 @@
     arguments of [to_angle] (= _to_angle) and [dispatch_table] are GENERATED from srctools/math.py on every run
     (Gen/RotFormulas_gen.v, Gen/RotDispatch_gen.v).  Arithmetic is over the classical reals: floating-point rounding
     is outside the model (the property says "up to rounding"). *)
-From Coq Require Import Reals List.
+From Coq Require Import Reals List QArith Qreals.
 From SV Require Import Rot.RotBase Gen.RotFormulas_gen Rot.RotAlgebra Rot.RotAliasProofs Rot.RotEuler Rot.RotEulerProofs
-  Rot.RotDispatch Rot.RotDispatchProofs Rot.RotMixedProofs Gen.RotDispatch_gen Rot.RotGJ Rot.RotGJProofs Rot.RotGJExample
-  Rot.RotReify Gen.RotReified_gen Rot.RotReifyProofs.
+  Rot.RotDispatch Rot.RotDispatchProofs Rot.RotMixedProofs Gen.RotDispatch_gen Rot.RotGJ Rot.RotGJProofs Rot.RotGJTotal Rot.RotGJTotalProofs Rot.RotGJExample
+  Rot.RotReify Gen.RotReified_gen Rot.RotReifyProofs
+  Rot.RotRound Rot.RotRoundProofs Rot.RotRoundFlocq Gen.RotRounded_gen Rot.RotRoundTied.
+Import ListNotations.
 Open Scope R_scope.
 
 (** ** Every matrix built from an Euler angle is a proper rotation *)
@@ -76,6 +78,25 @@ Theorem c04_inverse_is_transpose_on_rotations : forall p, gj_prog_ok p = true ->
   forall m n, rotation m -> gj_inverse Rnum p (rows_of m) = GOk n -> mat_of n = transpose m.
 Proof. exact gauss_jordan_inverse_rotation. Qed.
 
+(** inverse() RETURNS on every rotation (exact arithmetic): for every program accepted by the second decidable test
+    [gj_total_ok] (Rot/RotGJTotal.v: intervals for the absolute value of every entry of the left block and a lower bound of
+    |det|; every pivot search finds a pivot, every divisor is non-zero, every diagonal entry passes the threshold test)
+    the interpreter over the reals returns a result on every rotation ... *)
+Theorem c04_inverse_returns_on_rotations : forall p, gj_total_ok p = true ->
+  forall m, rotation m -> exists n, gj_inverse Rnum p (rows_of m) = GOk n.
+Proof. exact gj_inverse_total. Qed.
+(** ... so inverse() equals transpose() on rotations, without the proviso "whenever it returns". *)
+Theorem c04_inverse_equals_transpose_on_rotations : forall p, gj_prog_ok p = true -> gj_total_ok p = true ->
+  forall m, rotation m -> exists n, gj_inverse Rnum p (rows_of m) = GOk n /\ mat_of n = transpose m.
+Proof. exact gj_inverse_rotation_is_transpose. Qed.
+(** The first pivot, quantitatively: the largest entry of every column of a rotation has square >= 1/3 (|pivot| >= 1/sqrt 3),
+    five orders of magnitude above the 0.00001 threshold. *)
+Theorem c04_rotation_column_pivot_bound : forall m, rotation m ->
+  (1 / 3 <= Rmax (aa m * aa m) (Rmax (ba m * ba m) (ca m * ca m))) /\
+  (1 / 3 <= Rmax (ab m * ab m) (Rmax (bb m * bb m) (cb m * cb m))) /\
+  (1 / 3 <= Rmax (ac m * ac m) (Rmax (bc m * bc m) (cc m * cc m))).
+Proof. exact rotation_column_pivot_bound. Qed.
+
 (** ** Matrix -> Angle -> Matrix.  libm's atan2 enters only through the visible premise [atan2_spec]. *)
 Theorem c04_euler_roundtrip : forall atan2, atan2_spec atan2 ->
   forall m, rotation m -> horiz m > 1 / 1000 -> from_angle_obj (to_angle atan2 m) = m.
@@ -88,6 +109,14 @@ Theorem c04_to_angle_guard_is_engine_threshold : forall c, guard_cfg_ok c = true
 Proof. exact guard_ok_horiz. Qed.
 Theorem c04_to_angle_guard_tied : forall s, ta_guard s <-> guard_den ta_guard_cfg s.
 Proof. exact ta_guard_tied. Qed.
+(** The pitch: a reified component accepted by [pitch_ok] is atan2(-forward.z, horizontal length) - total on every matrix,
+    also on a product whose forward.z was rounded to 1.0000000000000002 - and the reified components are the generated ones. *)
+Theorem c04_to_angle_pitch_is_atan2 : forall c, pitch_ok c = true -> forall s t, comp_den s c t ->
+  exists n, t = TaAtan2 n (- ac s) (horiz s).
+Proof. exact pitch_ok_meaning. Qed.
+Theorem c04_to_angle_pitch_tied : forall s,
+  comp_den s ta_pitch_main_cfg (fst (fst (ta_main s))) /\ comp_den s ta_pitch_lock_cfg (fst (fst (ta_lock s))).
+Proof. exact ta_pitch_tied. Qed.
 (** Inside the gimbal-lock band every entry is reproduced within twice the horizontal length of the forward axis. *)
 Theorem c04_gimbal_error_bound : forall atan2, atan2_spec atan2 ->
   forall m, rotation m -> horiz m <= 1 / 1000 -> mat_close (2 * horiz m) (from_angle_obj (to_angle atan2 m)) m.
@@ -121,11 +150,64 @@ Theorem c04_mixed_assoc_angle : forall atan2, atan2_spec atan2 -> forall v a B m
     spec atan2 (VVec (vec_rot (from_angle_obj a) v)) B = spec atan2 (VVec v) (VAng ab).
 Proof. exact mixed_assoc_angle. Qed.
 
+(** ** "... up to rounding": the float side of v @ M and A @ B.
+    The expression trees of _vec_rot and _mat_mul (reified from the same trees that are compared bit for bit with the
+    implementation) evaluated with a rounding after every + - * stay within a rational bound [fe_err] of their exact value:
+    sound for every tree, every input bound and every rounding with |rnd t - t| <= u |t| + eta ... *)
+Theorem c04_rounding_analysis_sound : forall rnd u eta,
+  (forall t, Rabs (rnd t - t) <= Q2R u * Rabs t + Q2R eta) -> 0 <= Q2R u ->
+  forall B env, (forall n, Rabs (env n) <= Q2R (B n)) ->
+  forall e, Rabs (fe_exact env e) <= Q2R (fe_mag B e) /\ Rabs (fe_fl rnd env e - fe_exact env e) <= Q2R (fe_err u eta B e).
+Proof. exact fe_error_bound. Qed.
+(** ... IEEE binary64 round-to-nearest-even (Flocq's [round radix2 (FLT_exp (-1074) 53) ZnearestE]) is one, with u = 2^-53
+    and eta = 2^-1075 (underflow included; overflow excluded: the exponent range of [rnd64] is unbounded above) ... *)
+Theorem c04_binary64_rounding : forall t, Rabs (rnd64 t - t) <= Q2R u64 * Rabs t + Q2R eta64.
+Proof. exact rnd64_error. Qed.
+(** ... the trees are the generated real formulas ... *)
+Theorem c04_rounded_trees_tied : forall s o v,
+  map (fe_exact (env_sov s o v)) vec_rot_fe = [vx (vec_rot s v); vy (vec_rot s v); vz (vec_rot s v)] /\
+  map (fe_exact (env_sov s o v)) mat_mul_fe = (let m := mat_mul s o in [aa m; ab m; ac m; ba m; bb m; bc m; ca m; cb m; cc m]).
+Proof. intros s o v. split; [apply vec_rot_fe_tied | apply mat_mul_fe_tied]. Qed.
+(** ... so every component of the binary64 v @ M is within [tol] of the real v @ M, and every entry of the binary64 A @ B
+    within [tol] of the real product, for all matrices with entries up to [bm] (exact rotations: 1) and vectors with
+    components up to [bv], whenever the decidable test accepts [tol] (named instance obligations, e.g. 2e-15 for unit
+    inputs: the oracle's tolerance 1e-9 is not an empirical number for these two formulas). *)
+Theorem c04_vec_rot_binary64_error : forall bm bv tol, errs_within bm bv tol vec_rot_fe = true ->
+  forall s v, mat_within bm s -> vec_within bv v -> forall i, (i < 3)%nat ->
+  Rabs (nth i (map (fe_fl rnd64 (env_sov s s v)) vec_rot_fe) 0 -
+        nth i [vx (vec_rot s v); vy (vec_rot s v); vz (vec_rot s v)] 0) <= Q2R tol.
+Proof. exact vec_rot_binary64_error. Qed.
+Theorem c04_mat_mul_binary64_error : forall bm tol, errs_within bm 0 tol mat_mul_fe = true ->
+  forall s o, mat_within bm s -> mat_within bm o -> forall i, (i < 9)%nat ->
+  Rabs (nth i (map (fe_fl rnd64 (env_sov s o (Vec3 0 0 0))) mat_mul_fe) 0 -
+        nth i (let m := mat_mul s o in [aa m; ab m; ac m; ba m; bb m; bc m; ca m; cb m; cc m]) 0) <= Q2R tol.
+Proof. exact mat_mul_binary64_error. Qed.
+(** Matrix.from_angle in binary64.  The arithmetic of the nine entries runs on libm's sin / cos values [inp]; if these are
+    within [d] of the real sin / cos of the real angles, every entry of the float matrix is within [tol] of the exact rotation
+    [from_angle p y r] and at most 1 + tol in absolute value - for every [d], [tol] the decidable test accepts for today's
+    trees (obligations: 1e-15 for d = 0, 3e-14 for d = 5e-15; the check measures d on sampled angles with 50-digit
+    arithmetic).  libm's accuracy is the visible hypothesis; the trees are tied to the generated [from_angle]. *)
+Theorem c04_from_angle_binary64_error : forall d tol, errs_within_in 1 d tol from_angle_fe = true ->
+  forall p y r inp, (forall n, Rabs (inp n - from_angle_inputs p y r n) <= Q2R d) ->
+  forall i, (i < 9)%nat ->
+  let fl := nth i (map (fe_fl rnd64 inp) from_angle_fe) 0 in
+  let ex := nth i (let m := from_angle p y r in [aa m; ab m; ac m; ba m; bb m; bc m; ca m; cb m; cc m]) 0 in
+  Rabs (fl - ex) <= Q2R tol /\ Rabs fl <= 1 + Q2R tol.
+Proof. exact from_angle_binary64_error. Qed.
+Theorem c04_from_angle_trees_tied : forall p y r,
+  map (fe_exact (from_angle_inputs p y r)) from_angle_fe =
+  (let m := from_angle p y r in [aa m; ab m; ac m; ba m; bb m; bc m; ca m; cb m; cc m]).
+Proof. exact from_angle_fe_tied. Qed.
+Theorem c04_rotation_entries_within_1 : forall m, rotation m -> mat_within 1 m.
+Proof. exact rotation_within_1. Qed.
+
 (** Non-vacuity of the Gauss-Jordan theorems: a program equal to today's generated one is accepted and inverse() returns on
     the identity (which is a rotation). *)
 Example c04_inverse_hyp_satisfiable :
   gj_prog_ok gj_ref_prog = true /\ gj_inverse Rnum gj_ref_prog (rows_of I3) = GOk (rows_of I3).
 Proof. exact gj_identity. Qed.
+Example c04_inverse_total_hyp_satisfiable : gj_total_ok gj_ref_prog = true /\ rotation I3.
+Proof. exact gj_ref_total. Qed.
 (** Non-vacuity: the identity is a rotation outside the gimbal band; the pole is a rotation inside it. *)
 Example c04_hyp_satisfiable_main : rotation I3 /\ horiz I3 > 1 / 1000.
 Proof. exact rotation_I3_main. Qed.
